@@ -112,7 +112,7 @@ theorem updateDelegation_spec (c : Cfg) {s : St} (h : Inv s) (d : Addr) {val : V
     by_cases h1 : ((findDlg val.dlgs d).isNone && decide (delta < 0)) = true
     · simp only [h1, if_true]; exact ⟨trivial, hf.2, hg, fun _ => h⟩
     · simp only [h1, if_false, Bool.false_eq_true]
-      refine ⟨trivial, hf.2, ?_, ?_⟩
+      refine ⟨rfl, hf.2, ?_, ?_⟩
       · exact get_after_upd _ _ _ _ _ _ _ rfl hf.2
       · intro hk
         apply Inv.updateDelegator
